@@ -550,9 +550,12 @@ class AsModelModel(Model):
 
     def getattr(self, ex, st, obj, name, node):
         src = ast.unparse(node)
-        if src in ("_wrappers.get", "_seen.add", "_seen.remove", "_seen.discard", "new.replace", "d.items", "'Self-referential structure detected in {!r}'.format",
-                   "\"Don't know how to wrap {!r}: {!r}\".format"):
+        if src in ("_wrappers.get", "_seen.add", "_seen.remove", "_seen.discard", "d.items"):
             return Obj("attr:" + src)
+        if isinstance(obj, Obj) and obj.kind in ("models", "identity-lambda") and name == "replace":
+            return Obj("attr:model.replace")                 # whatever local name the wrapped value has
+        if is_z3(obj) and z3.is_string(obj) and name == "format":
+            return Obj("attr:str.format")
         return NotImplemented
 
     def compare(self, ex, st, op, a, b):
@@ -594,9 +597,9 @@ class AsModelModel(Model):
         if src in ("f", "Dict"):
             st.ghost["where"] = "during the construction"
             return self.recursive(ex, st, src)
-        if src == "new.replace":
+        if isinstance(f, Obj) and f.kind == "attr:model.replace":
             return [Path(st, "normal", Obj("models"))]
-        if src.endswith(".format"):
+        if isinstance(f, Obj) and f.kind == "attr:str.format":
             return [Path(st, "normal", ex.fresh(z3.StringSort(), "msg"))]
         if src == "HyWrapperError":
             return [Path(st, "normal", ExcVal("HyWrapperError", tag="explicit"))]
@@ -728,6 +731,33 @@ def _lift_local(v):
 STRING_PREFIXES = ("", "r", "b", "br", "rb", "f", "fr", "rf", "t", "rt", "tr")
 
 
+def _closure_roles(fn):
+    """(name of the single parameter, names declared nonlocal) of a nested closure."""
+    a = fn.args
+    if a.vararg or a.kwarg or a.kwonlyargs or a.posonlyargs or len(a.args) != 1:
+        return None, []
+    return a.args[0].arg, [n for s_ in ast.walk(fn) if isinstance(s_, ast.Nonlocal) for n in s_.names]
+
+
+def _symbolic_prelude(ex, st, outer, inner_name, keep=()):
+    """Run, symbolically and in order, the plain `name = expression` statements of `outer` that precede the nested def
+    `inner_name`; statements outside the subset (loops that read the input, calls of methods) are skipped, and the names in `keep`
+    are never overwritten."""
+    for stt in outer.body:
+        if isinstance(stt, ast.FunctionDef) and stt.name == inner_name:
+            break
+        if not (isinstance(stt, ast.Assign) and len(stt.targets) == 1 and isinstance(stt.targets[0], ast.Name)):
+            continue
+        if stt.targets[0].id in keep:
+            continue
+        try:
+            ps = ex.ev(st, stt.value)
+        except Unsupported:
+            continue
+        if len(ps) == 1 and ps[0].kind == "normal" and ps[0].st is st:
+            st.frame.vars[stt.targets[0].id] = ps[0].val
+
+
 def c23_quote_closing(chk, prefix="quote_closing"):
     """Per string prefix (the finite set the method accepts; its own validity test is run natively): the closure's free
     variables are whatever the real prelude of prefixed_string computes for that prefix; `escaping` and the character are
@@ -759,10 +789,18 @@ def c23_quote_closing(chk, prefix="quote_closing"):
         parity0 = esc0
         outer_frame = E.Frame(None)
         outer_frame.vars.update({k: _lift_local(v) for k, v in loc.items() if k not in ("self", "_")})
-        outer_frame.vars["escaping"] = esc0
+        # the closure's parameter and its one piece of state are found by role, not by name: the parameter is the only one, the
+        # state is the only name declared nonlocal
+        pname, svars = _closure_roles(fn)
+        if pname is None or len(svars) != 1:
+            chk.ob(f"{prefix}/prefix {pfx!r}: VC generation", None, "pyvc", "proved",
+                   detail=f"quote_closing no longer has one parameter and one nonlocal state variable ({pname}, {svars})")
+            continue
+        sv = svars[0]
+        outer_frame.vars[sv] = esc0
         frame = E.Frame(outer_frame)
-        frame.vars["c"] = c
-        frame.nonlocal_decl.add("escaping")
+        frame.vars[pname] = c
+        frame.nonlocal_decl.add(sv)
         st.frame = frame
         st.pc += [z3.Length(c) == 1]
         body = [s_ for s_ in fn.body if not isinstance(s_, ast.Nonlocal)]
@@ -777,7 +815,7 @@ def c23_quote_closing(chk, prefix="quote_closing"):
         closes = z3.And(c == q, z3.Not(parity0))
         tag = f"[prefix {pfx!r}]"
         for p in paths:
-            esc1 = p.st.frame.parent.vars["escaping"] if p.st.frame.parent is not None else None
+            esc1 = p.st.frame.parent.vars[sv] if p.st.frame.parent is not None else None
             parity1 = z3.If(c == bs, z3.Not(parity0), z3.BoolVal(False))
             if p.kind == "return":
                 ex.oblige(f"returns 1 exactly for a double quote preceded by an even number of backslashes, else 0 {tag}", p.st,
@@ -795,7 +833,7 @@ def c23_quote_closing(chk, prefix="quote_closing"):
         discharge(chk, prefix, ex)
         ret = [p for p in paths if p.kind == "return"]
         canary_refuted = canary_refuted or any(
-            E.prove(p.st.pc + [c == bs], p.st.frame.parent.vars["escaping"] == z3.BoolVal(True))[0] == "refuted" for p in ret)
+            E.prove(p.st.pc + [c == bs], p.st.frame.parent.vars[sv] == z3.BoolVal(True))[0] == "refuted" for p in ret)
     chk.ob(prefix + "/every documented string prefix is accepted by the method's own validity test", sorted(accepted) == sorted(STRING_PREFIXES),
            "native", "proved", detail=str(accepted))
     chk.canary("C23: `escaping is set (not toggled) by a backslash` is refuted", canary_refuted)
@@ -817,13 +855,29 @@ def c23_delim_closing(chk, prefix="delim_closing"):
     #            index >= -1
     inv0 = z3.And(z3.Not(z3.Contains(rest, rb)), idx0 >= -1,
                   (idx0 >= 0) == z3.And(has, z3.PrefixOf(rest, delim)), z3.Implies(idx0 >= 0, idx0 == z3.Length(rest)))
+    pname, svars = _closure_roles(fn)
+    if pname is None or len(svars) != 1:
+        chk.ob(f"{prefix}/VC generation", None, "pyvc", "proved",
+               detail=f"delim_closing no longer has one parameter and one nonlocal state variable ({pname}, {svars})")
+        return
+    sv = svars[0]
     outer_frame = E.Frame(None)
-    outer_frame.vars.update({"delim": delim, "index": idx0})
+    outer_frame.vars["delim"] = delim
+    st.frame = outer_frame
+    st.pc += [z3.Not(z3.Contains(delim, rb))]
+    # the statements of bracketed_string between reading the delimiter and the closure: plain assignments are run symbolically
+    # (the initial value of the state, values derived from the delimiter such as its length); the delimiter itself stays symbolic
+    _symbolic_prelude(ex, st, outer, "delim_closing", keep=("delim",))
+    init = outer_frame.vars.get(sv)
+    ex.oblige("the invariant holds initially (no ] fed yet, nothing after it)", st,
+              z3.BoolVal(False) if not (E.is_z3(init) and z3.is_int(init)) else
+              z3.And(init >= -1, z3.Not(init >= 0)))
+    outer_frame.vars[sv] = idx0
     frame = E.Frame(outer_frame)
-    frame.vars["c"] = c
-    frame.nonlocal_decl.add("index")
+    frame.vars[pname] = c
+    frame.nonlocal_decl.add(sv)
     st.frame = frame
-    st.pc += [z3.Length(c) == 1, z3.Not(z3.Contains(delim, rb)), inv0]
+    st.pc += [z3.Length(c) == 1, inv0]
     body = [s for s in fn.body if not isinstance(s, ast.Nonlocal)]
     paths = ex.run_block(st, body)
     k = 0
@@ -833,7 +887,7 @@ def c23_delim_closing(chk, prefix="delim_closing"):
         if p.kind != "return":
             ex.oblige(f"never raises ({p.kind})", p.st, z3.BoolVal(False))
             continue
-        idx1 = p.st.frame.parent.vars["index"]
+        idx1 = p.st.frame.parent.vars[sv]
         rest1 = z3.If(c == rb, z3.StringVal(""), z3.Concat(rest, c))
         has1 = z3.Or(has, c == rb)
         ex.oblige("returns len(delim) + 2 exactly when the text fed ends with ] + delim + ], else 0", p.st,
@@ -1029,8 +1083,10 @@ class FComponentModel(Model):
         return NotImplemented
 
     def site(self, st, node):
-        """Stable name of a call site: its source text and its ordinal among the calls with that text met on this path."""
-        src = ast.unparse(node)
+        """Stable name of a call site: the callee with its literal arguments (which character is looked for), and its ordinal among
+        the calls of that form met on this path.  Non-literal arguments (local names) are not part of the name."""
+        lits = [repr(a.value) for a in getattr(node, "args", []) if isinstance(a, ast.Constant) and isinstance(a.value, str) and len(a.value) == 1]
+        src = f"{ast.unparse(node.func)}({', '.join(lits)})" if isinstance(node, ast.Call) else ast.unparse(node)
         n = sum(1 for x in st.log if isinstance(x, tuple) and x[0] == "site" and x[1] == src) + 1
         st.log.append(("site", src))
         return f"{src} #{n}"
@@ -1216,9 +1272,9 @@ class OuterVarModel(Model):
             if name == "is_fn":
                 return self.IsFn(obj.idx)
             if name == "bindings":
-                return _Bound(obj, "bindings")
-        if isinstance(obj, _Bound) and obj.attr == "bindings" and name == "keys":
-            return _Bound(obj.obj, "bindings.keys")
+                return _ScopeSet(obj.idx)          # the dict seen as the set of its keys (iteration, `in`, set(...), .keys())
+        if isinstance(obj, _ScopeSet) and name == "keys":
+            return _Bound(obj, "keys")
         if isinstance(obj, (_NameSub, _ScopeSet)) and name in ("intersection", "update", "issuperset"):
             return _Bound(obj, name)
         if isinstance(obj, _Bound) and obj.obj == "asty" and name in ("Global", "Nonlocal"):
@@ -1252,8 +1308,8 @@ class OuterVarModel(Model):
             r = {"ScopeFn": z3.And(i < self.K, self.Kind(i) == 0), "ScopeLet": z3.And(i < self.K, self.Kind(i) == 1),
                  "ScopeGlobal": i == self.K}[args[1].attr]
             return [Path(st, "normal", r)]
-        if f.attr == "bindings.keys":
-            return [Path(st, "normal", _ScopeSet(f.obj.idx))]
+        if f.attr == "keys" and isinstance(f.obj, _ScopeSet) and not args:
+            return [Path(st, "normal", f.obj)]
         if f.attr == "intersection":
             other = args[0]
             return [Path(st, "normal", _NameSub([z3.And(self.mem(f.obj, j), self.mem(other, j)) for j in range(self.k)], "set"))]
